@@ -762,6 +762,10 @@ def oracle_finder(kind, p, data, mask, res):
     else:
         xy = None if xypos is None else [(int(x), int(y)) for x, y in xypos]
         out += oracle_stars(res['conv'], res['thr'], res['kfp'], ms, mask, p['exclude_border'], xy, who=who)
+    ky, kx = res['kfp'].shape
+    if not (ky % 2 == 1 and kx % 2 == 1 and res['kfp'][ky // 2, kx // 2]):
+        out.append((f'{who}:kernel-footprint', 'the kernel footprint is not odd-sized with its centre included '
+                    '(hypothesis of find_stars_spec)'))
     passing = [] if rows is None else [i for i, r in enumerate(rows) if py_pass(kind, p, r)]
     # None iff nothing qualifies
     if (table is None) != (not passing):
@@ -781,6 +785,11 @@ def oracle_finder(kind, p, data, mask, res):
         if bad:
             out.append((f'{who}:finite', f'non-finite {bad} in the output table'))
             break
+    # the remaining (derived) columns: npix and the magnitudes
+    derived = sorted({a for r in g for a in cols if a not in FINITE[kind] and not math.isfinite(r[a])})
+    if derived:
+        out.append((f'{who}:nonfinite-mag', f'non-finite values in the derived column(s) {derived} of the output '
+                    'table (magnitude of a non-positive flux / of a zero threshold)'))
     for r in g:
         if kind == 'DAO':
             ok = (p['sharplo'] <= r['sharpness'] <= p['sharphi'] and p['roundlo'] <= r['roundness1'] <= p['roundhi']
@@ -912,7 +921,12 @@ def run(ctx):
         '"refines them with the supplied centroid function": tested (bit-for-bit against the same function on '
         'the independently cut footprint window), not modelled in Coq',
         '"centroid lies within the kernel of a detected peak": numeric support test on every output row',
-        'order among exactly tied values after a top-N selection is numpy\'s; any valid N-highest answer is accepted']
+        'order among exactly tied values after a top-N selection is numpy\'s; any valid N-highest answer is accepted',
+        '"separation satisfies the configured bound": proved up to exact ties of the convolved image '
+        '(min_separation_partial); tied peaks inside the separation are a known finding',
+        'constant images: find_peaks returns None by an early exit although every pixel qualifies (known finding); '
+        'find_peaks_spec / find_peaks_none_iff state the early exit explicitly',
+        'the density-enhancement kernel (shape, mask, zero sum, relerr) and threshold_eff are tested, not modelled']
     quick = ctx.tier == 'quick'
     rng = ctx.rng
     terms, meta = [], []
@@ -1057,6 +1071,33 @@ def run(ctx):
         # K: filters
         terms.append(coq_filter(kind, p, res))
         meta.append(('finder-filter', d, not errs))
+
+    # ---------------- the density-enhancement kernel (support test) ----------------
+    from photutils.detection.core import _StarFinderKernel
+    for _ in range(60 if quick else 600):
+        fwhm = rng.choice([0.5, 1.0, 1.5, 2.0, 2.5, 3.0, 4.5])
+        ratio = rng.choice([1.0, 0.9, 0.7, 0.5, 0.3])
+        theta = rng.choice([0.0, 15.0, 30.0, 45.0, 90.0, 135.0, 200.0])
+        sr = rng.choice([1.0, 1.5, 2.0])
+        k = _StarFinderKernel(fwhm, ratio=ratio, theta=theta, sigma_radius=sr)
+        ky, kx = k.shape
+        m = k.mask.astype(bool)
+        ok = (ky % 2 == 1 and kx % 2 == 1 and k.data.shape == m.shape == (k.ny, k.nx) and m[ky // 2, kx // 2]
+              and k.yradius == ky // 2 and k.xradius == kx // 2 and np.array_equal(m, m[::-1, ::-1])
+              and abs(k.data.sum()) < 1e-9 and not k.data[~m].any()
+              and np.isclose(k.relerr, 1.0 / np.sqrt((k.gaussian_kernel ** 2).sum()
+                                                       - k.gaussian_kernel.sum() ** 2 / k.npixels)))
+        ctx.count_case(['kernel', fwhm, ratio, theta, sr], True)
+        ctx.support('kernel: odd shape, centre in footprint, point-symmetric mask, zero sum, relerr')
+        if not ok:
+            ctx.violation('_StarFinderKernel:shape', 'kernel is not odd-sized / centred / zero-sum / point-symmetric',
+                          {'fwhm': fwhm, 'ratio': ratio, 'theta': theta, 'sigma_radius': sr})
+        from photutils.detection import DAOStarFinder
+        t = rng.choice([0.0, 1.0, 2.5])
+        f = DAOStarFinder(t, fwhm, ratio=ratio, theta=theta, sigma_radius=sr)
+        if f.threshold_eff != t * f.kernel.relerr:
+            ctx.violation('DAOStarFinder:threshold_eff', 'threshold_eff != threshold * kernel.relerr',
+                          {'fwhm': fwhm, 'ratio': ratio, 'theta': theta, 'sigma_radius': sr, 'threshold': t})
 
     bad = ctx.coq_eval_cases(['C14_Model'], 'check_case', terms, case_type='case')
     ctx.stat('coq', 'disagreements', len(bad))
